@@ -210,6 +210,13 @@ static int d_fvec5_null(fx_t *F, int v, dv_t *o)
     o[2].cls = X_ALT;	/* vnacal_new_set_m_error: sign not documented */
     return dvp(o, n, NULL, X_ALT, 0, "NULL");
 }
+/* vnacal_make_correlated_parameter: NULL only with one sigma per point of
+   the vector parameter the "other" chain ends in (baseline: a scalar) */
+static int d_fvec5_corr(fx_t *F, int v, dv_t *o)
+{
+    int n = d_fvec5(F, v, o);
+    return dvp(o, n, NULL, X_CTX, 0, "NULL");
+}
 static int d_fvec_apply(fx_t *F, int v, dv_t *o)
 {
     int n = dvp(o, 0, F->f5, X_BASE, 0, "in-range");
@@ -1034,7 +1041,7 @@ static fn_t c3_table[] = {
  { "vnacal_make_scalar_parameter", RK_INT, CB_ONE, EM_INVAL, 0, 0, t_make_scalar_parameter, { {"gamma",d_gamma} } },
  { "vnacal_make_vector_parameter", RK_INT, CB_ONE, EM_INVAL, 0, 0, t_make_vector_parameter, { {"frequency_vector",d_fvec5}, {"frequencies",d_n5}, {"gamma_vector",d_g5} } },
  { "vnacal_make_unknown_parameter", RK_INT, CB_ONE, EM_INVAL, 0, 0, t_make_unknown_parameter, { {"initial_guess",d_param} } },
- { "vnacal_make_correlated_parameter", RK_INT, CB_ONE, EM_INVAL, 0, 0, t_make_correlated_parameter, { {"other",d_param}, {"sigma_frequency_vector",d_fvec5}, {"sigma_frequencies",d_n5}, {"sigma_vector",d_sig_corr} } },
+ { "vnacal_make_correlated_parameter", RK_INT, CB_ONE, EM_INVAL, 0, 0, t_make_correlated_parameter, { {"other",d_param}, {"sigma_frequency_vector",d_fvec5_corr}, {"sigma_frequencies",d_n5}, {"sigma_vector",d_sig_corr} } },
  { "vnacal_get_parameter_value", RK_CPX, CB_UNSPEC, EM_INVAL, 0, 0, t_get_parameter_value, { {"parameter",d_param_val}, {"frequency",d_freq_val} } },
  { "vnacal_delete_parameter", RK_INT, CB_ONE, EM_INVAL, 0, 0, t_delete_parameter, { {"parameter",d_param_del} } },
  { "vnacal_create", RK_PTR, CB_ONE, 0, 0, 0, t_create, { {"error_fn",d_errfn} } },
